@@ -13,6 +13,11 @@
       the client's MarkedOffsets (sorted). Model: commitPacked (Gen functions + max-keeping mark).
       P: Spec.verdict after each commit (consumed = all records, finished = committed so far).
 
+  c10.start <ntopics> <name>… <nrec> (<name> <part> <offset> <epoch>)… <ncommit> <i>…
+            | <nrec> (<sourceID> <offset>)… <ncommit> (<k> (<name> <part> <epoch> <offset>)*k)…
+      the real Start (topic ids) → Assigned → consume → Commit path; topic list with duplicates, topics
+      and marks by name id. Model: topicID (last position wins) / Topics[index] / commitStarted.
+
   c10.pipe  <procs> <async> <capacity> <ntopics> <nrec> (<topic> <part> <offset> <epoch> <discard>)… <nchoice> <c>…
             | <nops> op…   with op = in <i> <stream> <sourceID> <offset> | out <i> | drop <i>
                                      | ack <i> <k> (<topic> <part> <epoch> <offset>)*k
@@ -232,11 +237,57 @@ def handlePipe (args impl : List String) : Option (String × String) :=
     | [] => pure ("bad-impl", "bad-impl")
   | _ => none
 
+/-! ### c10.start -/
+
+/-- model of the started plugin: source id per record, then marks after each commit -/
+def startModel (topics : List Int) (recs : List Rec) (order : List Nat) : Option String := do
+  let sids ← recs.mapM (startedSourceID topics)
+  let packed := sids.zip (recs.map packOffset)
+  let rec go : Marks → List Nat → Option (List Marks)
+    | _, [] => some []
+    | m, i :: is => do
+      let (sid, off) ← packed[i]?
+      let m' ← commitStarted topics m sid off
+      let rest ← go m' is
+      pure (m' :: rest)
+  let ms ← go [] order
+  pure (unwords ([toString recs.length] ++ packed.flatMap (fun x => [toString x.1.toNat, toString x.2.toInt])
+      ++ [toString ms.length] ++ ms.map encMarks))
+
+/-- skip `2 * n` tokens (the source id / offset pairs `In` received) -/
+def handleStart (args impl : List String) : Option (String × String) := do
+  let (topics, r0) ← listOf int? args
+  match r0 with
+  | nr :: rest =>
+    let n ← nat? nr
+    let (rs, r1) ← parseRecs 0 n rest
+    let recs := rs.map (·.1)
+    let (order, r2) ← listOf nat? r1
+    if r2 ≠ [] then none
+    if order.any (· ≥ recs.length) then none
+    let m := (startModel topics recs order).getD "panic:bounds"
+    -- the oracle: records named by topic NAME; the index range does not matter here
+    let allIn := recs.all (fun r => SpecC10.inRange 0 r.part r.offset r.epoch && topics.contains r.topic)
+                 && decide (topics.length < 2 ^ 48)
+    let p := match impl with
+      | k :: irest =>
+        if k.startsWith "panic" then (if allIn then "fail:panic" else "ok") else
+        if nat? k ≠ some recs.length then "bad-impl" else
+        match irest.drop (2 * recs.length) with
+        | kc :: mrest =>
+          if nat? kc ≠ some order.length then "bad-impl" else
+          if allIn then SpecC10.firstBad (marksVerdicts recs [] order mrest) else "ok"
+        | [] => "bad-impl"
+      | [] => "bad-impl"
+    pure (m, p)
+  | [] => none
+
 def handle (cmd : String) (args impl : List String) : Option (String × String) :=
   match cmd with
   | "c10.pack" => handlePack args impl
   | "c10.marks" => handleMarks args impl
   | "c10.pipe" => handlePipe args impl
+  | "c10.start" => handleStart args impl
   | _ => none
 
 end FileD.DrvC10
